@@ -93,7 +93,15 @@ def regenerate_constants(log):
     rc, out = sh([sys.executable, os.path.join(VERIF, "bin", "genconsts.py"), REPO,
                   os.path.join(LEAN, "OnetVerif", "Generated.lean")])
     log.append(out)
-    return rc == 0, out
+    if rc != 0:
+        return False, out
+    # structural facts ("shapes": call order, lock regions, conditions of the modelled functions)
+    exe = os.path.join(BUILD, "astfacts")
+    rc2, out2 = sh(["go", "build", "-o", exe, "./cmd/astfacts"], cwd=HARNESS, env=GOENV)
+    if rc2 == 0:
+        rc2, out2 = sh([exe, REPO, os.path.join(LEAN, "OnetVerif", "Shapes.lean")])
+    log.append(out2)
+    return rc2 == 0, out + out2
 
 
 # ------------------------------------------------------------------------------------------------
